@@ -221,6 +221,16 @@ def run(ctx):
                             ctx.inst("C17.R2b", "row=%s/id=%s" % (r["ids"][0], x), pe in cands,
                                      "symbol %r = prefix %r (10^%d) + %r of the base unit; the unit's name carries 10^%d" % (x, ps, e, rest, pe), r["loc"])
 
+    # every spelled-out name of a prefixed unit carries that unit's prefix: `decimetres` listed on the decameter row is a factor 100
+    for i, r in enumerate(R):
+        if i not in prefixed or prefixed[i][1] != 10:
+            continue
+        pe = prefixed[i][2]
+        for x in r["ids"]:
+            hits = sorted({e_ for p_, e_ in SI.items() if len(p_) >= 4 and x.lower().startswith(p_) and len(x) > len(p_) + 2})
+            if hits:
+                ctx.inst("C17.R2b", "row=%s/name=%s" % (r["ids"][0], x), pe in hits, "the name %r starts with the prefix for 10^%s; its unit is the 10^%d multiple of %s" % (x, hits, pe, R[prefixed[i][0]]["ids"][0]), r["loc"])
+
     # ---- R4 temperature maps are inverse
     ctx.rule("C17.R4", "each temperature unit's to_kelvin/from_kelvin bodies are affine maps over literals that compose to the identity in exact arithmetic", floor=3)
     for r in R:
@@ -390,7 +400,8 @@ def run(ctx):
     ctx.inst("C17.R8", "case-folding#covers-the-table", not (non_ascii and ascii_only), "identifiers with non-ASCII letters: %d (e.g. %s); ASCII-only case folding in the unit look-up: %s" % (len(non_ascii), non_ascii[:3], ascii_only or "none"), None)
     # a unit enters a candidate list at most once: a push per matching *identifier* (inside a loop over the unit's identifiers) counts a unit
     # with two spellings of one name (hz / Hz) twice and turns `HZ` into an ambiguity
-    hru = core.hir_fn("blots_core::units::resolve_unit")
+    RU_NAME = "blots_core::units::resolve_unit"
+    hru = core.hir_fn(RU_NAME)
     per_alias = []
     n_push = 0
     for lp in H.walk(hru["body"]):
@@ -403,6 +414,68 @@ def run(ctx):
                         per_alias.append(H.loc(x))
     n_push = sum(1 for x in H.walk(hru["body"]) if H.kind(x) == "MethodCall" and x["name"] == "push" and "Unit" in (x.get("recv_ty") or x["recv"].get("ty") or ""))
     ctx.inst("C17.R8", "resolve_unit#one-entry-per-unit", not per_alias, "%d push(es) into candidate lists; inside a loop over a unit's identifiers (one entry per matching spelling): %s" % (n_push, per_alias or "none"), H.loc(hru["body"]))
+    # the exact look-up is made with the spelling the user wrote: a folded spelling handed to matches_exact makes an unlisted casing that
+    # collides with two units (`KB`: kb / kB) resolve silently to whichever is listed in that case
+    idp = (H.pat_binds(hru["params"][0]) or [None])[0]
+
+    from rules.c02 import parents as parents_of
+    PAR = parents_of(hru["body"])
+
+    def binder_of(node, name):
+        """the construct that binds `name` as seen from `node`: ('let', init) | ('for', iter) | ('param',) | ('other',)"""
+        child, cur = node, PAR.get(id(node))
+        while cur is not None:
+            if isinstance(cur, dict) and cur.get("k") == "Block" and isinstance(child, (dict, list)):
+                stmts = cur.get("stmts", [])
+                # statements before the one we came from (or all of them when we came from the tail expression)
+                upto = len(stmts)
+                for i_, st_ in enumerate(stmts):
+                    if st_ is child or any(y is child for y in ([st_.get("init"), st_.get("e"), st_.get("els")])):
+                        upto = i_
+                        break
+                for st_ in reversed(stmts[:upto]):
+                    if st_.get("k") == "Let" and name in H.pat_binds(st_["pat"]):
+                        init_ = H.strip(st_["init"]) if st_.get("init") is not None else None
+                        if init_ is not None and H.kind(st_["pat"]) == "Tuple" and H.kind(init_) == "Tup" and len(init_["es"]) == len(st_["pat"]["pats"]):
+                            init_ = next((e2 for p2, e2 in zip(st_["pat"]["pats"], init_["es"]) if name in H.pat_binds(p2)), init_)
+                        return ("let", init_)
+            if isinstance(cur, dict) and cur.get("k") == "For" and name in H.pat_binds(cur["pat"]) and child is not cur.get("iter"):
+                return ("for", H.strip(cur["iter"]))
+            if isinstance(cur, dict) and cur.get("k") == "Closure" and any(name in H.pat_binds(p_) for p_ in cur.get("params", [])):
+                return ("other",)
+            if isinstance(cur, dict) and cur.get("k") in ("Arm",) or (isinstance(cur, dict) and "pat" in cur and "body" in cur and cur.get("k") not in ("For", "Closure") and name in H.pat_binds(cur["pat"])):
+                return ("other",)
+            child, cur = cur, PAR.get(id(cur))
+        return ("param",) if name == idp else ("other",)
+
+    def origins(e_, depth=0):
+        """expressions an argument may stand for: through lets (also the `let (params) = (args)` of an inlined helper) and `for`
+        variables over array literals; ('param',) is resolve_unit's own identifier"""
+        e_ = H.strip(e_)
+        while H.kind(e_) in ("AddrOf",) or (H.kind(e_) == "Unary" and e_.get("op") == "Deref") or (H.kind(e_) == "MethodCall" and e_["name"] in ("as_str", "as_ref", "borrow", "deref")):
+            e_ = H.strip(e_.get("e") or e_.get("recv"))
+        l_ = H.path_local(e_)
+        if l_ is None or depth > 6:
+            return [e_]
+        b_ = binder_of(e_, l_)
+        if b_[0] == "param":
+            return [("param", l_)]
+        if b_[0] == "let" and b_[1] is not None:
+            return origins(b_[1], depth + 1)
+        if b_[0] == "for":
+            if H.kind(b_[1]) == "Array":
+                return [o_ for el in b_[1].get("es", []) for o_ in origins(el, depth + 1)]
+            return [b_[1]]
+        return [e_]
+    verdicts = []
+    # (hir_fn hands back resolve_unit with its private helpers inlined: `let (params) = (args); body`)
+    for x in H.walk(hru["body"]):
+        if H.kind(x) == "MethodCall" and (x.get("def") or "").endswith("units::Unit::matches_exact") and x.get("args"):
+            verdicts += origins(x["args"][0])
+    folded = [H.loc(o_) for o_ in verdicts if not isinstance(o_, tuple) and any(H.kind(y) == "MethodCall" and y["name"] in ("to_lowercase", "to_uppercase", "to_ascii_lowercase", "to_ascii_uppercase") for y in H.walk(o_))]
+    as_written = [o_ for o_ in verdicts if isinstance(o_, tuple) and o_[1] == idp]
+    ctx.inst("C17.R8", "resolve_unit#exact-lookup-as-written", False if folded else (True if as_written and len(as_written) == len(verdicts) else None),
+             "matches_exact is asked with: %d time(s) the identifier as written, folded spellings at %s, other: %d" % (len(as_written), folded or "none", len(verdicts) - len(as_written) - len(folded)), H.loc(hru["body"]))
     RU = "blots_core::units::resolve_unit"
     ru = M.Fn(core.mir_fn(RU), RU)
     TAKE = ("::remove", "::swap_remove", "::pop")
